@@ -262,6 +262,18 @@ class Eval:
         if path == "core::num::<impl usize>::overflowing_mul":
             prod = args[0] * args[1]
             return Tup([prod, Cond("atom", atom="ovf(%r)" % (prod,))])
+        if path == "core::num::<impl usize>::saturating_mul" and all(isinstance(a, Poly) for a in args):
+            # n.saturating_mul(step): the product, or usize::MAX when it overflows - and usize::MAX is not below any slice length
+            prod = args[0] * args[1]
+            out = []
+            for Q, truth in s.fork_on(P, Cond("atom", atom="ovf(%r)" % (prod,))):
+                if truth:
+                    Q.conds.append(Cond(">=", Poly.atom("MAX") - L))
+                    Q.conds.append(Cond(">", Poly.atom("MAX")))
+                    out.append((Q, Poly.atom("MAX")))
+                else:
+                    out.append((Q, prod))
+            return ("multi", out)
         if path in ("core::num::<impl usize>::checked_mul", "core::num::<impl usize>::checked_add", "core::num::<impl usize>::checked_sub") and all(isinstance(a, Poly) for a in args):
             if name == "checked_mul":
                 prod = args[0] * args[1]
